@@ -153,6 +153,10 @@ class Report:
 
   def _write_evidence(self, explanation, rule_text, n_new, listed, und):
     os.makedirs(EVIDENCE_DIR, exist_ok=True)
+    from mmsa import cfg as _cfg
+    cfg_stats = dict(_cfg.STATS)
+    for q_ in self.analysed['functions']:
+      self.repo.consulted.add(q_.split('.')[0])
     inst = self.instances
     disc = [i for i in inst if i.status == 'discharged']
     distinct = {(i.rule, i.subject) for i in inst if i.nontrivial}
@@ -173,7 +177,8 @@ class Report:
                          'discharged': sum(1 for i in inst if i.rule == r and i.status == 'discharged')}
                      for r in sorted({i.rule for i in inst})},
         'functions_analysed': sorted(self.analysed['functions']),
-        'paths_analysed': self.analysed['paths'],
+        'paths_analysed': self.analysed['paths'] + cfg_stats.get('paths_enumerated', 0),
+        'cfg_statistics': cfg_stats,
         'call_sites_analysed': self.analysed['call_sites'],
         'instance_floors': [{'what': w, 'measured': m, 'floor': f} for w, m, f in self.floors],
         'modules': self.repo.digests(),
